@@ -4,7 +4,7 @@
    Statements only; every proof is `exact <lemma of Proofs/DhcpServer.v>`. *)
 From Erbium Require Import Lib.Base Model.DhcpCodec Model.DhcpOptVal Model.DhcpPolicy Model.DhcpAddrs
   Model.DhcpPool Model.DhcpHandler Model.Frame Model.DhcpServer.
-From Erbium Require Import Proofs.DhcpPool Proofs.DhcpPoolCrash Proofs.DhcpServer.
+From Erbium Require Import Proofs.DhcpPool Proofs.DhcpPoolCrash Proofs.DhcpServer Proofs.DhcpServerWf.
 
 (* S01 -- totality.  Full statement wanted:
      forall cfg st t1 t2 e b ans, is_panic (server_step cfg st t1 t2 e b ans) = false.
@@ -97,6 +97,43 @@ Check S03_reply : forall cfg st t1 t2 e b ans st' m r ip secs k,
   d_hlen r = d_hlen m /\ d_giaddr r = d_giaddr m /\ d_flags r = d_flags m.
 Print Assumptions S03_reply.
 
+(* S03, wire level -- the frame is a VALID frame and its payload decodes back to the reply.
+   Full statement wanted: for every input of octets and every configuration the loader
+   accepts, a produced frame satisfies valid_frame and `decode (payload) = Ok reply`.
+   Proved under: the datagram consists of octets; the interface has a 6-octet address and the
+   port is a u16; every address of the configuration is a u32; and two hypotheses that are
+   facts about the CONFIGURATION not yet derived from its well-formedness:
+   (a) the options the policy walk selects are well-formed (codes 1..254, octet values,
+       distinct codes) -- distinctness follows from Proofs/DhcpPolicy.apply_chain_nodup, the
+       value part needs an invariant over the loader's option values;
+   (b) the encoded reply fits a UDP datagram (see S01). *)
+Theorem S03_wire_partial : forall cfg st t1 t2 e b ans st' f,
+  server_step cfg st t1 t2 e b ans = Ok (st', Some f) ->
+  bytes_ok b = true -> wf_env e ->
+  (forall x, In x (sc_universe cfg) -> x < 4294967296) ->
+  (forall m, decode b = Ok m ->
+     let os := to_options (rs_opts (snd (walk_of cfg (request_of e m)))) in
+     forallb wf_option os = true /\ keys_distinct os = true) ->
+  exists m r mac,
+    decode b = Ok m /\ reply_of cfg st t2 e b ans = Some r /\ mac = takeN 6 (d_chaddr m) /\
+    f = udp4_frame (frame_args e m r mac) /\
+    wf_dhcp r = true /\ decode (encode r) = Ok r /\
+    (lenN (encode r) <= 65507 -> valid_frame (frame_args e m r mac) f = true).
+Proof. exact wire_facts. Qed.
+Check S03_wire_partial : forall cfg st t1 t2 e b ans st' f,
+  server_step cfg st t1 t2 e b ans = Ok (st', Some f) ->
+  bytes_ok b = true -> wf_env e ->
+  (forall x, In x (sc_universe cfg) -> x < 4294967296) ->
+  (forall m, decode b = Ok m ->
+     let os := to_options (rs_opts (snd (walk_of cfg (request_of e m)))) in
+     forallb wf_option os = true /\ keys_distinct os = true) ->
+  exists m r mac,
+    decode b = Ok m /\ reply_of cfg st t2 e b ans = Some r /\ mac = takeN 6 (d_chaddr m) /\
+    f = udp4_frame (frame_args e m r mac) /\
+    wf_dhcp r = true /\ decode (encode r) = Ok r /\
+    (lenN (encode r) <= 65507 -> valid_frame (frame_args e m r mac) f = true).
+Print Assumptions S03_wire_partial.
+
 (* S04 -- lifts C01 to histories of received datagrams: the datagrams that get as far as
    allocate_address form a lease-store history (pool_history) in which a step whose reply
    did not go out as a frame counts as lost; that history is admitted by the lease-store
@@ -119,3 +156,43 @@ Check S04_no_double_allocation : forall cfg M h st now st' fs,
   exists log, run_lossy_from (fst st, []) (pool_history cfg st h) = Some (fst st', log) /\
               forall a b x t, a <> b -> ~ (holds log a x t /\ holds log b x t).
 Print Assumptions S04_no_double_allocation.
+
+(* ---- the hypotheses are satisfiable: a /24, a DISCOVER with the broadcast bit, then the
+   REQUEST naming the offered address, then a DISCOVER of another client ------------- *)
+Definition exs_g : config :=
+  {| g_dns := None; g_search := []; g_portal := None; g_addresses := [P4 3221225984 24]; g_policies := [] |}.
+Definition exs_cfg : scfg :=
+  {| sc_conf := exs_g; sc_universe := map (fun k => 3221225984 + N.of_nat k) (seq 0 256); sc_min := 300; sc_max := 86400 |}.
+Definition exs_env : env :=
+  {| e_serverip := 3221225985; e_mac := [2; 0; 94; 16; 0; 1]; e_port := 68; e_mtu := Some 1500; e_router := None |}.
+Definition exs_msg (t : N) (flags : N) (mac6 : N) (extra : list (N * list N)) : dhcp :=
+  {| d_op := 1; d_htype := 1; d_hlen := 6; d_hops := 0; d_xid := 305419896; d_secs := 0; d_flags := flags;
+     d_ciaddr := 0; d_yiaddr := 0; d_siaddr := 0; d_giaddr := 0; d_chaddr := [0; 0; 94; 0; 83; mac6];
+     d_sname := []; d_file := []; d_options := (53, [t]) :: (55, [1; 3; 6; 26; 51]) :: extra |}.
+Definition exs_ev (t1 : N) (m : dhcp) (a : answer) : sevent :=
+  {| se_t1 := t1; se_t2 := t1; se_env := exs_env; se_bytes := encode m; se_ans := a |}.
+Definition exs_history : list sevent :=
+  [ exs_ev 1000 (exs_msg 1 32768 1 []) (Granted 3221226061 300 NewAddress);
+    exs_ev 1002 (exs_msg 3 0 1 [(50, [192; 0; 2; 77]); (54, [192; 0; 2; 1])]) (Granted 3221226061 300 ReusingLease);
+    exs_ev 1003 (exs_msg 7 0 1 []) NoAddress;                                        (* RELEASE: not answered *)
+    exs_ev 1004 (exs_msg 1 0 2 [(50, [192; 0; 2; 77])]) (Granted 3221226062 300 NewAddress) ].
+
+Example S_example_step :
+  exists st' f m r mac,
+    server_step exs_cfg ([], []) 1000 1000 exs_env (encode (exs_msg 1 32768 1 [])) (Granted 3221226061 300 NewAddress)
+      = Ok (st', Some f) /\
+    decode (encode (exs_msg 1 32768 1 [])) = Ok m /\
+    reply_of exs_cfg ([], []) 1000 exs_env (encode (exs_msg 1 32768 1 [])) (Granted 3221226061 300 NewAddress) = Some r /\
+    mac = takeN 6 (d_chaddr m) /\
+    valid_frame (frame_args exs_env m r mac) f = true /\
+    u_dst_ip (frame_args exs_env m r mac) = [255; 255; 255; 255] /\
+    wf_dhcp r = true /\ allowed exs_g (request_of exs_env m) (d_yiaddr r) = true /\
+    lenN f = 324.
+Proof. do 5 eexists. vm_compute. repeat split. Qed.
+
+Example S_example_history :
+  wf_times 86400 0 exs_history = true /\
+  exists st' fs, server_run exs_cfg ([], []) exs_history = Some (st', fs) /\
+                 length fs = 3%nat /\ length (fst st') = 2%nat /\
+                 length (pool_history exs_cfg ([], []) exs_history) = 3%nat.
+Proof. split. reflexivity. do 2 eexists. vm_compute. repeat split. Qed.
